@@ -64,7 +64,15 @@ def rewrite(addr, cfg):
             break
         user, fqdn = local[:p], local[p + 1:]
         if b"@" in fqdn:
-            return None
+            # The new "domain" contains an @ of its own.  Whether the hack applies AGAIN is read two ways
+            # (everything after the new @, or after the final @); a name with an @ is never listed, so the
+            # first reading stops here.  If the second reading stops as well the result is determined
+            # (addresses(5): "the domain part is everything after the final @"); otherwise it is left open.
+            if lower(fqdn[fqdn.rfind(b"@") + 1:]) in cfg.percenthack:
+                return None
+            a = user + b"@" + fqdn
+            fired.add("pct-inner-at")
+            break
         a = user + b"@" + fqdn
         fired.add("pct2" if "pct" in fired else "pct")
     at = a.rfind(b"@")
